@@ -2393,6 +2393,10 @@ func (d *Data) ServeHTTP(uuid dvid.UUID, ctx *datastore.VersionedCtx, w http.Res
 
 	case "subvolblocks":
 		// GET <api URL>/node/<UUID>/<data name>/subvolblocks/<size>/<offset>[?compression=...]
+		if len(parts) < 6 {
+			server.BadRequest(w, r, "'subvolblocks' must be followed by size/offset")
+			return
+		}
 		sizeStr, offsetStr := parts[4], parts[5]
 
 		if throttle := queryStrings.Get("throttle"); throttle == "on" || throttle == "true" {
